@@ -98,6 +98,7 @@ type ContractSet struct {
 	Lemmas    []*Lemma
 	ObjInvs   map[string][]*ObjInv
 	Guarded   map[string]string // "pkg.Type.field" -> mutex field name
+	Owned     []string
 	Files     []string
 	Errors    []string
 }
@@ -287,6 +288,14 @@ func (cs *ContractSet) loadContractFile(path string, pkgPath string) error {
 			cs.ObjInvs[oi.Type] = append(cs.ObjInvs[oi.Type], oi)
 			cur = nil
 			lastText = &oi.Text
+			continue
+		case "owned":
+			// owned pkg.Type: writes to objects of this type require the ghost owns(ref)
+			if len(fields) > 1 {
+				cs.Owned = append(cs.Owned, fields[1])
+			}
+			cur = nil
+			lastText = nil
 			continue
 		case "guarded_by":
 			// guarded_by pkg.Type.mux: f1, f2
